@@ -169,6 +169,18 @@ func rtStubs(m map[string]stubFn) {
 		n := a[1].(*Term)
 		return StrV{a: NewSArr(8, e.freshArr(strName(a[0]), 8, n)), off: c64(0), len: n}
 	}
+	m[RT+"Name"] = func(e *Engine, fn *ssa.Function, a []Value) Value {
+		n, cmp := a[1].(*Term), a[2].(*Term)
+		if cmp.Op != "c" {
+			panic("Name: cmp must be concrete")
+		}
+		v := e.freshArr(strName(a[0]), 8, cmp)
+		arr := NewSArr(8, ConstArr(8, Const(8, 'x')))
+		for i := uint64(0); i < cmp.C; i++ {
+			arr.Store(c64(i), Select(v, c64(i)))
+		}
+		return StrV{a: arr, off: c64(0), len: n}
+	}
 	m[RT+"Assume"] = func(e *Engine, fn *ssa.Function, a []Value) Value { e.Assume(a[0].(*Term)); return nil }
 	m[RT+"Assert"] = func(e *Engine, fn *ssa.Function, a []Value) Value {
 		e.Assert(a[0].(*Term), strName(a[1]), "", nil)
@@ -248,6 +260,12 @@ func rtStubs(m map[string]stubFn) {
 		name := strName(a[0])
 		h := a[1].(IfaceV).v.(*ClosureV)
 		e.hooks[name] = append(e.hooks[name], h)
+		return nil
+	}
+	m[RT+"OnCall"] = func(e *Engine, fn *ssa.Function, a []Value) Value {
+		name := strName(a[0])
+		h := a[1].(IfaceV).v.(*ClosureV)
+		e.prehooks[name] = append(e.prehooks[name], h)
 		return nil
 	}
 	m[RT+"RunSpawned"] = func(e *Engine, fn *ssa.Function, a []Value) Value {
